@@ -86,8 +86,8 @@ def ttv_body(ctx, case):
     cm.compare(ctx, got, expect, bound, nterms, exact, "ttv-value", f"des={des}")
 
 
-for _k, (_q, _t) in {"tensor": (500, 10000), "sptensor": (600, 12000), "ktensor": (400, 8000),
-                     "ttensor": (400, 8000), "sumtensor": (300, 5000)}.items():
+for _k, (_q, _t) in {"tensor": (1000, 10000), "sptensor": (1200, 12000), "ktensor": (800, 8000),
+                     "ttensor": (800, 8000), "sumtensor": (600, 5000)}.items():
     cell(f"C02/ttv/{_k}", strategy=_ttv_strategy(_k), quick=_q, thorough=_t, shards=(2, 8))(ttv_body)
 
 
@@ -187,7 +187,7 @@ def ttm_body(ctx, case):
     cm.compare(ctx, got, expect, bound, nterms, exact, "ttm-value", f"des={des} transpose={transpose}")
 
 
-for _k, (_q, _t) in {"tensor": (500, 10000), "sptensor": (500, 10000), "ttensor": (400, 8000)}.items():
+for _k, (_q, _t) in {"tensor": (1000, 10000), "sptensor": (1000, 10000), "ttensor": (800, 8000)}.items():
     cell(f"C02/ttm/{_k}", strategy=_ttm_strategy(_k), quick=_q, thorough=_t, shards=(2, 8))(ttm_body)
 
 
